@@ -1335,6 +1335,8 @@ package dig
 // registration: Decorate (C06, C12, C14)
 
 //@ func newDecoratorNode(dcor, s, opts) (n, err)
+//@   site call dig.newParamList #1: assert[C12:a-decorators-parameters-are-parsed-against-its-own-scope,C08:a-decorators-parameters-are-parsed-against-its-own-scope] $arg0 == typeOf(dcor) && isScope($arg1) && scopeOf($arg1) == s
+//@   site call dig.newResultList #1: assert[C12:a-decorators-results-are-parsed-from-its-own-type] $arg0 == typeOf(dcor)
 //@   requires dcor != nil && kind(typeOf(dcor)) == kFunc() && s != nil && treeInv()
 //@   modifies graphHolder.nodes, elems(*graphNode), map(constructorNode.orders)
 //@   allocates
